@@ -49,6 +49,7 @@ func checkC07(r *Report, p *Program) {
 	hookAnswerFrozenAfterGate(r, p, "R07.21")
 	noOpTestOperands(r, p, "R07.22")
 	patchHelpersTable(r, p, "R07.23")
+	materialisedRevisionAppended(r, p, "R07.24")
 }
 
 // r07_9: which fields are revisioned. The default (all of spec) applies whenever the
